@@ -54,7 +54,8 @@ Record answers := {
   a_clen : res Z;
   a_path : res pathans;
   a_excreq : res unit;
-  a_app : res N }.                  (* Raise: a handler of the request event raised *)
+  a_app : res (N * bool) }.         (* status, answered through an httperror event (notfound ...: forces close);
+                                       Raise: a handler of the request event raised *)
 
 (* per-connection state: membership in HTTP._buffers, entry of HTTP._clients *)
 Record conn := { buf : bool; cli : option reqinfo }.
@@ -205,7 +206,8 @@ Definition handle (c : conn) (a : answers) (e : iev) : conn * list eff * list ie
         end
   | IRequest ri =>
       match a_app a with
-      | Ret st => (c, [EDispatch], [IResponse st (resp_version (rver ri)) (negb (keepalive ri)) (is_head ri)], [])
+      | Ret (st, viaerr) =>
+          (c, [EDispatch], [IResponse st (resp_version (rver ri)) (viaerr || negb (keepalive ri)) (is_head ri)], [])
       | Raise =>
           (* request_failure -> _on_request_failure: httperror(req, res) with the registered pair -> 500, close;
              the exception event that follows finds req.handled and returns (repaired) *)
